@@ -278,6 +278,8 @@ class EditHooks(SysHooks):
                 elif isinstance(node.target, ast.Tuple) and len(node.target.elts) == 2 and all(isinstance(e, ast.Name) for e in node.target.elts):
                     it = d
                     pair = (node.target.elts[0].id, node.target.elts[1].id)
+            from .summ import strip_keyview
+            it = strip_keyview(it)
             if isinstance(it, ListV) and len(it.items) == 1:
                 elem = it.items[0]
             else:
